@@ -699,6 +699,11 @@ namespace bloch::runtime {
                     !fit->second.value.className.empty()) {
                     newVal.className = fit->second.value.className;
                 }
+                if (fit->second.value.type == Value::Type::Long &&
+                    newVal.type == Value::Type::Int) {
+                    newVal.type = Value::Type::Long;
+                    newVal.longValue = newVal.intValue;
+                }
                 fit->second.value = newVal;
                 fit->second.initialized = true;
                 return;
@@ -716,6 +721,10 @@ namespace bloch::runtime {
                         !existing.className.empty()) {
                         newVal.className = existing.className;
                     }
+                    if (existing.type == Value::Type::Long && newVal.type == Value::Type::Int) {
+                        newVal.type = Value::Type::Long;
+                        newVal.longValue = newVal.intValue;
+                    }
                     thisObj->fields[field->offset] = newVal;
                     return;
                 }
@@ -727,6 +736,10 @@ namespace bloch::runtime {
                 if (existing.type == Value::Type::Object && newVal.type == Value::Type::Object &&
                     newVal.objectValue && !existing.className.empty()) {
                     newVal.className = existing.className;
+                }
+                if (existing.type == Value::Type::Long && newVal.type == Value::Type::Int) {
+                    newVal.type = Value::Type::Long;
+                    newVal.longValue = newVal.intValue;
                 }
                 owner->staticStorage[field->offset] = newVal;
                 return;
@@ -1293,7 +1306,7 @@ namespace bloch::runtime {
             slot = defaultValueForField(field, cls->name);
             if (field.hasInitializer && field.initializer) {
                 beginFrame();  // a (lazily run) static initialiser sees no caller locals
-                slot = eval(field.initializer);
+                slot = withDeclaredClass(eval(field.initializer), field.type);
                 endFrame();
             }
             m_inStaticContext = prevStatic;
@@ -1346,6 +1359,12 @@ namespace bloch::runtime {
         if (v.type == Value::Type::Object && declared.kind == Value::Type::Object &&
             !declared.className.empty() && findClass(declared.className))
             v.className = declared.className;
+        // An int stored into a long declaration is widened there and then, so that later
+        // arithmetic on the variable is 64-bit.
+        if (v.type == Value::Type::Int && declared.kind == Value::Type::Long) {
+            v.type = Value::Type::Long;
+            v.longValue = v.intValue;
+        }
         return v;
     }
 
@@ -2184,6 +2203,11 @@ namespace bloch::runtime {
                         subst[m_currentClassCtx->typeParamNames[i]] = m_currentClassCtx->typeArgs[i];
                 }
                 v = withDeclaredClass(v, typeInfoFromAst(var->varType.get(), subst));
+            } else if (auto prim = dynamic_cast<PrimitiveType*>(var->varType.get())) {
+                if (prim->name == "long" && v.type == Value::Type::Int) {
+                    v.type = Value::Type::Long;
+                    v.longValue = v.intValue;
+                }
             }
             m_env.back()[var->name] = {v, var->isTracked, initialized};
         } else if (auto block = dynamic_cast<BlockStatement*>(s)) {
